@@ -363,6 +363,11 @@ func oneRun(mode string, seed int64, id int) (rec, bool) {
 				vh.Fatal("%v", err)
 			}
 		}
+		// ... and a last line that its writer never terminated: the stream's final flush delivers it, and counts it
+		if _, err := fh[1].WriteString("unterminated tail"); err != nil {
+			vh.Fatal("%v", err)
+		}
+		burst++
 	}
 	// shut down
 	fin := make(chan struct{})
